@@ -504,7 +504,7 @@ def run(tier, mutate_rows=None, mutate_paths=None):
     ck.setc("exhaustive", True)
     ck.setc("tlc_seconds", round(tgen, 1))
     ck.setc("rule", "TLC evaluates Verdict() of spec/MIRCheck.tla (written from MIR.md) on the complete table: every documented "
-                    "opcode x operand position x 47 operand kinds with the other positions valid, arity 0/-1/+1, ret operand lists "
+                    "opcode x operand position x 46 operand kinds with the other positions valid, arity 0/-1/+1, ret operand lists "
                     "x result type lists, call/inline/jcall x 8 prototypes x positions x kinds incl. block arguments and vararg tail, "
                     "overflow-branch / va_start / jret context rules, register and function declarations; and every transition of "
                     "the MIRApi protocol graph.  Each row is built through the API in a forked child in a fresh context with a "
